@@ -299,6 +299,23 @@ impl Prop for C11 {
                 }
             }
         }
+        // (0d) every function over a ladder of argument magnitudes on both sides of what a machine
+        // float can hold (1e-324 .. 1.8e308), with and without a unit, followed by a second result
+        for f in ["sin", "cos", "round", "floor", "ceil"] {
+            for a in [
+                "0", "1e-999", "1e-400", "1e-324", "1e-323", "1e-308", "2.2250738585072014e-308", "1e308", "1.7976931348623157e308", "1.7976931348623159e308", "1.8e308", "1e309", "-1e309", "-17e308", "1e400", "1e999", "-1e999", "1e999 * 1e999",
+                "1e999 / 1e-999", "1e309 m", "-1e309 kg", "1e999 °C",
+            ] {
+                sink(Case::new("fn-magnitudes", format!("{f}({a})")));
+                sink(Case::new("fn-magnitudes", format!("{f}({a}) 1 + 2")));
+                sink(Case::new("fn-magnitudes", format!("1 + {f}({a}) * 2")));
+                if f == "round" {
+                    sink(Case::new("fn-magnitudes", format!("round({a}, 2)")));
+                    sink(Case::new("fn-magnitudes", format!("round({a}, -2)")));
+                    sink(Case::new("fn-magnitudes", format!("round(1.5, {a})")));
+                }
+            }
+        }
         // (a) token soups
         let nmax = tier.pick(3, 4);
         for n in 1..=nmax {
